@@ -3,7 +3,7 @@
 # prints one line:  <id> apply=<ok|FAIL> demo_clean=<rc> demo_mut=<rc> check=<prop> rc=<rc> <first signature>
 set -u
 ID=$1; TIER=${2:-quick}; D=/verif/seeded/$ID
-PROP=$(/venv/bin/python -c "import json,sys; print(json.load(open('$D/meta.json'))['breaks_property'])")
+PROP=$(/venv/bin/python -c "import json,sys; m=json.load(open('$D/meta.json')); print(m.get('check_with') or m['breaks_property'])")
 CHECKPROP=${CHECK_PROP:-$PROP}
 W=$(mktemp -d /tmp/so_XXXXXX); rmdir $W
 git -C /repo worktree add -q --detach $W HEAD || exit 3
